@@ -684,6 +684,12 @@ def ext_layer(run, rng, tier, model):
 # member lookup by tag (lib/c04_tagmap.py): type shapes that select the tag-table branches of the SEQUENCE / SET /
 # CHOICE decoders, under structural faults (a member TLV in the wrong place)
 
+def nontrivial_contents(nodes):
+    """the contents a decode / DER re-encode cycle keeps octet for octet: everything but empty contents, the single octet 00
+    (what the C makes of an empty INTEGER / BIT STRING) and single non-zero octets taken as one class (BOOLEAN TRUE)"""
+    return sorted((b"\xff" if len(c) == 1 else c) for t, c in nodes if c not in (None, b"", b"\x00"))
+
+
 def tagmap_expect(tm, ttype, src, tags, mo):
     """what coq/Rt/SafetyTagMap.v, run on the emitted tables, says the C must answer on a frame holding TLVs with
     these tags (src: the member each TLV was built for).  -> ("OK", pres string) | ("NOTOK",) | None (no statement)"""
@@ -878,10 +884,10 @@ def tagmap_layer(run, rng, tier, model):
                     inn = sorted([(TM.tag_value_of(("p", t, None)), c) for (t, c) in TM.rebuilt_tree_nodes(me["v"], me["kids"])], key=repr) if r["consumed"] == len(me["data"]) else None
                 if inn is None or outn is None:
                     run.count("tagmap_nothing_lost_not_evaluated")
-                elif inn != outn and (sorted(t for t, c in inn) != sorted(t for t, c in outn)
-                                      or sorted(c for t, c in inn if c not in (None, b"", b"\x00")) != sorted(c for t, c in outn if c not in (None, b"", b"\x00"))):
-                    # (same tags, same non-trivial contents, but an EMPTY TLV re-encoded as 00: an empty constructed BIT STRING, an
-                    # INTEGER / ENUMERATED without contents octets accepted as 0 -- lenient decoding, C03's subject: counted below)
+                elif inn != outn and (sorted(t for t, c in inn) != sorted(t for t, c in outn) or nontrivial_contents(inn) != nontrivial_contents(outn)):
+                    # (same tags, same non-trivial contents, but an EMPTY TLV re-encoded as 00 -- an empty constructed BIT STRING, an
+                    # INTEGER / ENUMERATED without contents octets accepted as 0: lenient decoding, C03's subject -- or a BOOLEAN with
+                    # a non-canonical TRUE re-encoded as ff: counted below)
                     run.violation("oracle:tagmap:value-lost", dict(rep, what="RC_OK with %d octets consumed, but the value does not hold what was accepted: %d TLVs in, %d TLVs in the re-encoding (a member decoded twice keeps one value)" % (r["consumed"], len(inn), len(outn)),
                                                                    tlvs_in=[(t, (c.hex() if c is not None else None)) for t, c in inn][:40], tlvs_out=[(t, (c.hex() if c is not None else None)) for t, c in outn][:40]))
                 elif inn != outn:
